@@ -3,8 +3,10 @@ Spec: spec/writethrough/WriteThrough.tla   binding: harness/writethrough_impl.py
 from __future__ import annotations
 
 import collections
+import json
 import os
 import random
+import tempfile
 import time
 
 from .. import funcheck, tlc
@@ -22,6 +24,16 @@ TIERS = {
 NEG = [("NegForgetsPersist.cfg", "WriteThrough"), ("NegPersistsBeforeStoring.cfg", "WriteThrough"),
        ("NegClobbersOther.cfg", "WriteThrough"), ("NegClobbersOtherFrame.cfg", "Frame"),
        ("NegStaleLive.cfg", "WriteThrough")]
+
+
+def _pmap(fn, items):
+    """pool.pmap; when it ran in-process (a single item) its scratch directory - made the process's TMPDIR - is gone"""
+    out = pmap(fn, items)
+    if tempfile.tempdir and not os.path.isdir(tempfile.tempdir):
+        tempfile.tempdir = None
+        os.environ.pop("TMPDIR", None)
+        os.chdir(str(tlc.VERIF))
+    return out
 
 
 def _windows(cls, attrs, k):
@@ -105,7 +117,7 @@ def run(tier, seed):  # pylint: disable=too-many-locals,too-many-statements,too-
     only = os.environ.get("VERIF_C03_ONLY")  # development aid: comma separated class names
     if only:
         targets = [t for t in targets if W.target_name(t) in only.split(",")]
-    cen = pmap(R.census, targets)
+    cen = _pmap(R.census, targets)
     for c in cen:
         if c["error"] and c["error"].startswith("harness:"):
             raise MachineryError(c["error"])
@@ -196,10 +208,25 @@ def run(tier, seed):  # pylint: disable=too-many-locals,too-many-statements,too-
                             "behaviours": len(items) - n_items0}
     if pairs_bound < 500 and not only:
         raise MachineryError(f"only {pairs_bound} (class, attribute) pairs could be bound")
+    # vacuity guard: every pair that is exercisable on the reference tree must still be exercised (a regression that
+    # makes a fixture value unreadable or a valid value refused must not silently shrink the check)
+    base_file = tlc.SPEC / "writethrough" / "exercised_pairs.json"
+    bound_pairs = sorted(f"{W.target_name(t)}.{a}" for t, c in zip(targets, cen) if not c["error"] for a in c["attrs"])
+    if os.environ.get("VERIF_C03_WRITE_BASELINE"):
+        base_file.write_text(json.dumps(bound_pairs, indent=0) + "\n")
+    if base_file.exists():
+        expected = set(json.loads(base_file.read_text()))
+        if only:
+            expected = {p for p in expected if p.rsplit(".", 1)[0] in only.split(",")}
+        gone = sorted(expected - set(bound_pairs))
+        if gone:
+            why = {p: not_exercised.get(p, classes_not_instantiated.get(p.rsplit(".", 1)[0], "?")) for p in gone[:8]}
+            raise MachineryError(f"{len(gone)} (class, attribute) pairs exercised on the reference tree can no longer be "
+                                 f"exercised: {why}")
 
     # ---- replay
     t1 = time.time()
-    out = pmap(R.replay_item, items)
+    out = _pmap(R.replay_item, items)
     t_replay = time.time() - t1
     stats = collections.Counter()
     viol = []
